@@ -9,7 +9,8 @@ package main
 // property leaves gaps; the pool closes them mechanically: each pooled rule runs under every property, and only the
 // obligations whose construct lies in a function reachable from that property's entry points are kept.
 //
-// Reachability is over-approximated: static callees, function values mentioned anywhere in a body (callbacks, go
+// Reachability is over-approximated: static callees, the methods of repository values handed to functions outside the
+// repository (io.Copy calls Write), function values mentioned anywhere in a body (callbacks, go
 // statements, method values), function literals (part of their enclosing function) and, for calls through an interface
 // declared in the repository, every repository type implementing it (class-hierarchy resolution).
 
@@ -73,6 +74,48 @@ func (p *Prog) callGraph() *callGraph {
 		info := f.Info()
 		ast.Inspect(f.Decl.Body, func(n ast.Node) bool {
 			switch x := n.(type) {
+			case *ast.CallExpr:
+				// a value of a repository type handed to a function outside the repository (io.Copy(w, src),
+				// sort.Sort(x), errgroup's Go): that function calls back into the value's methods
+				if fn, ok := calleeObj(info, x).(*types.Func); !ok || fn.Pkg() == nil || strings.HasPrefix(fn.Pkg().Path(), modPrefix) {
+					break
+				}
+				for _, a := range x.Args {
+					t := info.TypeOf(a)
+					if t == nil {
+						continue
+					}
+					if pt, ok := t.(*types.Pointer); ok {
+						t = pt.Elem()
+					}
+					nt, ok := t.(*types.Named)
+					if !ok || nt.Obj().Pkg() == nil || !strings.HasPrefix(nt.Obj().Pkg().Path(), modPrefix) {
+						continue
+					}
+					var concrete []*types.Named
+					var only map[string]bool
+					if it, isIface := nt.Underlying().(*types.Interface); isIface {
+						concrete = implementers(it)
+						only = map[string]bool{}
+						for i := 0; i < it.NumMethods(); i++ {
+							only[it.Method(i).Name()] = true
+						}
+					} else {
+						concrete = []*types.Named{nt}
+					}
+					for _, ct := range concrete {
+						ms := types.NewMethodSet(types.NewPointer(ct))
+						for i := 0; i < ms.Len(); i++ {
+							m := ms.At(i).Obj().Name()
+							if only != nil && !only[m] {
+								continue
+							}
+							if id := typeIDOf(ct) + "." + m; p.funcs[id] != nil {
+								addEdge(f.ID, id)
+							}
+						}
+					}
+				}
 			case *ast.Ident:
 				if fn, ok := info.Uses[x].(*types.Func); ok {
 					if id := funcID(fn); p.funcs[id] != nil {
@@ -164,8 +207,8 @@ func (p *Prog) reach(roots []string) map[string]bool {
 
 // propertyEntries: the operations each property observes (its statement and observe_at), as function IDs or prefixes.
 var propertyEntries = map[string][]string{
-	"C01": {"pkg/cafs.defaultFs.", "pkg/cafs.chunkReader.", "pkg/cafs.fsWriter."},
-	"C02": {"pkg/cafs.defaultFs.Put", "pkg/cafs.fsWriter.", "pkg/cafs.KeyFromBytes", "pkg/cafs.RootHash", "pkg/cafs.LeavesForHash", "pkg/cafs.LeafKeys"},
+	"C01": {"pkg/cafs.defaultFs.", "pkg/cafs.chunkReader.", "pkg/cafs.fsWriter.", "pkg/cafs.New"},
+	"C02": {"pkg/cafs.defaultFs.Put", "pkg/cafs.New", "pkg/cafs.fsWriter.", "pkg/cafs.KeyFromBytes", "pkg/cafs.RootHash", "pkg/cafs.LeavesForHash", "pkg/cafs.LeafKeys"},
 	"C03": {"pkg/cafs.defaultFs.Get", "pkg/cafs.defaultFs.GetAt", "pkg/cafs.chunkReader.", "pkg/core.Publish", "pkg/core.PublishFile", "pkg/core.PublishSelectBundleEntries", "pkg/core.Update"},
 	"C04": {"pkg/core.Upload", "pkg/core.UploadSpecificKeys", "pkg/core.Publish", "pkg/core.PublishSelectBundleEntries", "pkg/core.PublishFile", "pkg/core.PublishMetadata", "pkg/core.DownloadMetadata"},
 	"C05": {"pkg/core.Diff", "pkg/core.Update", "pkg/core.Publish", "pkg/core.Upload"},
@@ -261,6 +304,20 @@ var sharedPool = []sharedRule{
 	{"local-metadata-scanners-skip-data", func(c *Ctx, r string) { checkLocalMetadataScannersSkipData(c, r) }},
 	{"bundle-descriptor-deleted-last", func(c *Ctx, r string) { checkBundleDescriptorDeletedLast(c, r) }},
 	{"keys-cache-only-verified", func(c *Ctx, r string) { checkKeysCacheOnlyVerified(c, r) }},
+	{"fetch-keys-forwards-pages", func(c *Ctx, r string) { checkFetchKeysForwardsPages(c, r) }},
+	{"file-lists-decoded-plain", func(c *Ctx, r string) { checkFileListsDecodedPlain(c, r) }},
+	{"encoders-do-not-rewrite", func(c *Ctx, r string) { checkEncodersDoNotRewrite(c, r, "pkg/core", "pkg/model", "pkg/wal") }},
+	{"purge-fails-only-on-error", func(c *Ctx, r string) { checkFailsOnlyOnError(c, r) }},
+	{"dedupe-by-equality", func(c *Ctx, r string) { checkDedupeByEquality(c, r) }},
+	{"dirents-append-only", func(c *Ctx, r string) { checkDirentsAppendOnly(c, r) }},
+	{"lookup-mode-unset", func(c *Ctx, r string) { checkLookupModeUnset(c, r) }},
+	{"wal-decodes-what-it-read", func(c *Ctx, r string) { checkWALDecodesWhatItRead(c, r) }},
+	{"writer-semaphore-private", func(c *Ctx, r string) { checkWriterSemaphorePrivate(c, r) }},
+	{"entries-preallocated", func(c *Ctx, r string) { checkEntriesPreallocated(c, r) }},
+	{"leaf-size-only-from-options", func(c *Ctx, r string) { checkLeafSizeOnlyFromOptions(c, r) }},
+	{"writer-handoff", func(c *Ctx, r string) { checkWriterHandoff(c, r) }},
+	{"meta-regexp-anchored", func(c *Ctx, r string) { checkMetaRegexpAnchored(c, r) }},
+	{"writeat-offset-advances", func(c *Ctx, r string) { checkWriteAtOffsetAdvances(c, r) }},
 	{"writer-buf-leaf-sized", func(c *Ctx, r string) { checkWriterBufIsLeafSized(c, r) }},
 	{"glob-cache-writers", func(c *Ctx, r string) { checkGlobCacheWriters(c, r) }},
 	{"nothing-deleted-after-repo-descriptor", func(c *Ctx, r string) { checkNothingDeletedAfterRepoDescriptor(c, r) }},
